@@ -194,7 +194,7 @@ def run_check(pid, tier, replay=None):
         "trusted_base": common.TRUSTED_BASE + getattr(mod, "TRUSTED_EXTRA", []),
         "theorems": names, "examples": examples, "failed": failed, "axioms": axioms, "leanchecker": leanchecker,
         "build_s": round(build_s, 1),
-        "evaluations": ex.evaluations, "distinct_nontrivial": len(ex.distinct), "rule": ex.rule,
+        "evaluations": ex.evaluations, "distinct_nontrivial": min(len(ex.distinct), ex.evaluations), "rule": ex.rule,
         "samples": ex.samples[:8], "traces_validated_against_impl": ex.traces_validated,
         "correspondence_disagreements": len(ex.disagreements), "unmodelled_cases": ex.unmodelled,
         "distribution": dict(sorted(ex.hist.items(), key=lambda kv: -kv[1])[:120]),
